@@ -331,9 +331,9 @@ impl Network {
             peer.key_list_limiter.increase();
             if peer.has_key_list_limit_exceeded(current_time) {
                 debug!(
-                    "peer {} - {} exceeded the rate for key list",
+                    "peer {} - {:?} exceeded the rate for key list",
                     peer_index,
-                    peer.public_key.unwrap().to_base58()
+                    peer.public_key.map(|key| key.to_base58())
                 );
                 return Err(Error::from(ErrorKind::Other));
             }
